@@ -19,14 +19,23 @@ MANIFEST = {
                 "value = the reference's (refines, refines_returns; inserted element / successor of the removed one: insert_returns_inserted, "
                 "remove_returns_successor); List::sort (pivot = first value, three-pointer walk, value swaps, recursion with a proved fuel "
                 "bound) = ascending permutation for EVERY input list and every strict partial order (sort_total/sort_perm/sort_sorted/"
-                "sort_frame, lsort_int); node ids never handed out twice or lost (nodes_inv); the statement-by-statement heap model of "
+                "sort_frame, lsort_int) and with the comparison function (= the element type's operator<; the header has no sort(comparator) "
+                "overload) as a parameter: for ANY function termination within the fuel, frame and permutation (sort_any_comparator, "
+                "sort_frame_any, heap level ptr_sort_comparator: no null pointer, no link written), order of the result for strict orders and "
+                "for a non-strict total preorder such as <= (sort_comparator, sort_strict_order, sort_nonstrict, sort_nonstrict_int), the "
+                "quicksort is not stable (sort_not_stable), and an iterator held across sort() keeps its position, not its element "
+                "(ptr_sort_iterators); node ids never handed out twice or lost (nodes_inv); the statement-by-statement heap model of "
                 "insert/remove/clear/sort with prev/next/value fields, sentinel, free list and 4-item blocks represents the chain model "
                 "after every history (ptr_refines, ptr_insert_returns, ptr_remove_returns, ptr_sort, ptr_iteration); size <= capacity, "
                 "growth rule and no reallocation within capacity (array_cap, reserve_policy, append_no_realloc); the cell-by-cell loops of "
                 "reserve/append/resize/remove/clear/copy never touch a cell outside the block or a raw cell and compute the list "
-                "functions of the model (raw_refines, raw_remove).  The models are tied to the current headers on every run: identical "
+                "functions of the model (raw_refines, raw_remove); the aliasing shapes on the statement-level models for every position / index / "
+                "size / capacity: l.insert(it, l) at any position incl. every inner one (self_insert_every_position), a.append(a[i]), "
+                "a.resize(n, a[i]), a.append(&a[i], n) (alias_append_every_index, alias_resize_every_index, alias_append_every_range).  The models are tied to the current headers on every run: identical "
                 "op lines are executed on the real containers (ASan/UBSan at -O1 and a second unsanitized -O2 build, poisoned "
-                "allocations, white-box node ids, new[]/delete[] counts, forward/backward link walks) and on the compiled models "
+                "allocations, white-box node ids of the chain AND of the free list in order, new[]/delete[] counts, forward/backward link walks, "
+                "iterators taken before sort() re-checked after it, sort() also on element types whose operator< is <= or an inconsistent cyclic "
+                "function, PoolList::append with 0..7 arguments) and on the compiled models "
                 "(chain model printed; heap model and cell model run in lockstep, any divergence marks the line), and an independent "
                 "Python reference (plain lists, sorted(), capacity contract) is evaluated on the implementation's output.",
         "note": "Trusted: Lean kernel + the three standard axioms; the hand translation of the three headers into the models (validated by the "
@@ -34,18 +43,21 @@ MANIFEST = {
                 "2^j-1) and in the items per block (>= 1) of List and PoolList; the values of the current sources are derived by "
                 "executing a probe built from the current headers (accepted: max(n,capacity)|m for one m = 2^j-1, equidistant block "
                 "allocations) and only instantiate them (mask_is_pow2_minus_one, block_items_pos).  Modelled rather than verified: "
-                "element types int and Tagged; copy construction and assignment exist only in the chain model (the lockstep heap replays them "
+                "element types int and Tagged (TaggedLe / TaggedOdd / Multi only as value sequences in the driver); the heap-level sort theorems are for "
+                "int values with an arbitrary comparison; copy construction and assignment exist only in the chain model (the lockstep heap replays them "
                 "as the insert(end, list) the C++ code performs); List::swap is proved on a separate two-sentinel shared heap (ptr_swap) that is "
                 "not run in lockstep (the lockstep exchanges the heaps); PoolList shares the heap model of List (its relinking code is a copy); "
                 "allocation never fails for the history sizes; distinct containers never alias.  The container itself or a reference into it as "
-                "argument (a.append(a), a.append(a[i]), a.resize(n, a[i]), a = a, l.append(l), l.prepend(l), l.insert(pos, l), l = l) is part of "
+                "argument (a.append(a), a.append(a[i]), a.append(&a[i], n), a.resize(n, a[i]), a = a, l.append(l), l.prepend(l), l.insert(pos, l), l = l) is part of "
                 "the model, of refines and of the generated histories (reference: as if the argument had been copied first; released storage is "
                 "overwritten by the harness allocator so that a stale read shows as wrong contents).  Construction/destruction counting belongs "
-                "to C04.  No theorem is partial.",
+                "to C04.  Only tested by the correspondence run (no theorem): const/non-const overload agreement, the const iterator forms, "
+                "operator!=, PoolList::append arities other than 1, resize(n) default value, ~PoolList.  Not present in the pinned headers "
+                "(so nothing to verify): List::sort(comparator), Array::insert, Array::sort, iterator arithmetic.  No theorem is partial.",
         "design_ref": "DESIGN.md 3/C03",
     }
 }
-PROPS = ["Nstd.Seq.Props", "Nstd.Seq.PropsSort", "Nstd.Seq.PropsAlias"]
+PROPS = ["Nstd.Seq.Props", "Nstd.Seq.PropsSort", "Nstd.Seq.PropsAlias", "Nstd.Seq.PropsHeap"]
 LEAN_TARGETS = PROPS + ["drv_seq"]
 DRIVER = "drv_seq"
 
@@ -845,7 +857,7 @@ def histories_for(ctx, pool_front):
         hs = [[l for l in h if not l.startswith(("pfront", "pback"))] for h in hs]
     ncorpus = len(hs)
     dl, dp, da = (3, 4, 3) if quick else (4, 5, 4)
-    nl, np_, na = (300000, 30000, 100000) if quick else (6000000, 1000000, 2000000)
+    nl, np_, na = (250000, 30000, 100000) if quick else (6000000, 1000000, 2000000)
     exl = exhaustive(L_OPS, dl) + (sampled(L_OPS, dl + 1, rng, nl) if nl else [])
     exp = exhaustive(p_ops, dp) + sampled(p_ops, dp + 1, rng, np_)
     exa = exhaustive(A_OPS, da) + sampled(A_OPS, da + 1, rng, na)
@@ -870,9 +882,13 @@ def histories_for(ctx, pool_front):
         f"Array length <= {da} over {len(A_OPS)} ops + {na} of length {da + 1} ({len(exa)}); "
         f"sort: every permutation of length <= {7 if quick else 8} and every {{0,1,2}}-valued list of length <= {8 if quick else 9} ({len(srt)}) "
         f"+ {len(shapes)} long adversarial shapes; List<Tagged> (operator< on the key only, so the arrangement of equal keys exposes the exact "
-        f"swap sequence): every key sequence over {{0,1,2}} of length <= {7 if quick else 10} + random lists to 100 elements ({len(tag)}); Array growth: initial capacities 0..40 x first growth to sizes 0..44 x second growth at the "
+        f"swap sequence): every key sequence over {{0,1,2}} of length <= {7 if quick else 10} + random lists to 100 elements; the same (one length less) with "
+        f"List<TaggedLe> (operator< is <=) and List<TaggedOdd> (operator< is a cyclic, inconsistent function): arrangement compared with the model's, "
+        f"iterators taken before every sort re-checked after it; PoolList<Multi>: append() with 0..7 arguments in every pair of arities + random mixes "
+        f"({len(tag)} histories in all); Array growth: initial capacities 0..40 x first growth to sizes 0..44 x second growth at the "
         f"boundaries ({len(grw) - len(ali)} histories{', 5% sample' if quick else ''}) + {len(ali)} self-argument histories (a.append(a), a.append(a[i]), "
-        f"a.resize(n, a[i]), a = a at capacities 0..16 x sizes 1..16 with distinct values; l.append(l), l.prepend(l), l.insert(pos, l), l = l); {len(rnd)} random histories of 10..300 ops "
+        f"a.resize(n, a[i]), a.append(&a[i], n), a = a at capacities 0..16 x sizes 1..16 with distinct values, a.append(a[i]) for EVERY index i there and with "
+        f"the array filled exactly to its capacity (sizes to 23, three ways of filling); l.append(l), l.prepend(l), l.insert(pos, l), l = l); {len(rnd)} random histories of 10..300 ops "
         "(value domains {0..2}, -3..6, -50..50, int extremes; ~4% invalid positions).  distinct_nontrivial = distinct (op-kind set, final "
         "observation) among histories with >= 3 ops whose last shown container is non-empty")
     ctx.cov["exhaustive"] = False
@@ -1088,7 +1104,7 @@ def check(ctx):
         if h2 is not None:
             try:
                 sub = [h for h in hs if h and h[-1] == "dump"]          # random + self-argument histories
-                sub += ctx.rng.sample(hs, min(len(hs), 20000 if ctx.tier == "quick" else 300000))
+                sub += ctx.rng.sample(hs, min(len(hs), 15000 if ctx.tier == "quick" else 300000))
                 d2 = differential_mp(ctx, h2, C.driver_path(DRIVER), sub)
                 ctx.log(f"-O2 stream: {len(sub)} histories, {len(d2)} disagreement(s)")
                 ctx.cov["streams"] = {"seq-ops (ASan+UBSan, -O1)": len(hs), "seq-ops-O2 (no sanitizer)": len(sub)}
